@@ -162,6 +162,12 @@ pub struct TimeoutCase {
     /// true: bounded stop on the unbounded model; false: no effect while unexpired on the finite model
     pub expiring: bool,
     pub timeout_ms: u64,
+    /// the timeout configured in the "unexpired" scenario (far longer than the run needs)
+    #[serde(default = "far_away")]
+    pub unexpired_ms: u64,
+}
+fn far_away() -> u64 {
+    600_000
 }
 
 /// correct code notices an expired timeout within about a second (the poll period of the
@@ -185,8 +191,8 @@ impl SubCheck for Timeouts {
         0
     }
     fn strategy(&self, _tier: Tier) -> BoxedStrategy<TimeoutCase> {
-        (prop_oneof![Just("bfs"), Just("dfs"), Just("on_demand"), Just("simulation")], prop_oneof![Just(1usize), Just(2usize), Just(4usize)], any::<bool>(), 150u64..450)
-            .prop_map(|(s, threads, expiring, timeout_ms)| TimeoutCase { strat: s.to_string(), threads, expiring, timeout_ms })
+        (prop_oneof![Just("bfs"), Just("dfs"), Just("on_demand"), Just("simulation")], prop_oneof![Just(1usize), Just(2usize), Just(4usize)], any::<bool>(), prop_oneof![3 => 150u64..450, 1 => 1050u64..2300], prop_oneof![Just(600_000u64), Just(30_000u64), Just(2_500u64), Just(950u64)])
+            .prop_map(|(s, threads, expiring, timeout_ms, unexpired_ms)| TimeoutCase { strat: s.to_string(), threads, expiring, timeout_ms, unexpired_ms })
             .boxed()
     }
     fn check(&self, c: &TimeoutCase, cov: &mut Cov) -> Result<(), Fail> {
@@ -222,7 +228,7 @@ impl SubCheck for Timeouts {
             let mut results: Vec<(Value, Value)> = vec![];
             for _ in 0..3 {
                 let a = spawn_child(&["finite", &c.strat, &th, "none"], Duration::from_secs(120));
-                let b = spawn_child(&["finite", &c.strat, &th, "600000"], Duration::from_secs(120));
+                let b = spawn_child(&["finite", &c.strat, &th, &c.unexpired_ms.to_string()], Duration::from_secs(120));
                 match (a, b) {
                     (ChildOutcome::Done(va, _), ChildOutcome::Done(vb, _)) => {
                         without.push(va["elapsed_ms"].as_u64().unwrap_or(0));
@@ -233,17 +239,29 @@ impl SubCheck for Timeouts {
                     _ => fail!(format!("c12/timeout/unexpired-timeout-blocks-progress/{}", c.strat), "{} with {} thread(s) on a 5000-state model did not finish within 120 s with or without a 600 s timeout", c.strat, c.threads),
                 }
             }
+            // the comparison is only meaningful for runs that really ended before the timeout
+            // expired (a slow machine can make a 5000-state check outlast a 950 ms timeout)
+            results.retain(|(_, vb)| vb["elapsed_ms"].as_u64().unwrap_or(u64::MAX) + 300 < c.unexpired_ms);
+            if results.is_empty() {
+                cov.label("unexpired/run_outlasted_the_timeout_skipped");
+                return Ok(());
+            }
+            cov.label_if(c.unexpired_ms < 5_000, "unexpired/timeout_within_seconds_of_the_run");
             let (va, vb) = &results[0];
             if c.strat != "simulation" {
-                ensure!(va["unique"] == vb["unique"] && va["discoveries"] == vb["discoveries"], "c12/timeout/unexpired-timeout-changes-results", "{} x{}: without timeout {} / with a 600 s timeout {}", c.strat, c.threads, va, vb);
+                ensure!(va["unique"] == vb["unique"] && va["discoveries"] == vb["discoveries"], "c12/timeout/unexpired-timeout-changes-results", "{} x{}: without timeout {} / with a {} ms timeout (run ended well before it) {}", c.strat, c.threads, va, c.unexpired_ms, vb);
                 if c.threads == 1 {
                     ensure!(va["state_count"] == vb["state_count"], "c12/timeout/unexpired-timeout-changes-results", "state_count differs: {} vs {}", va, vb);
                 }
             }
+            if c.strat == "simulation" {
+                // the only stop reason left is the target of 20000 generated states
+                ensure!(vb["state_count"].as_u64().unwrap_or(0) >= 20000, "c12/timeout/unexpired-timeout-changes-results", "simulation x{} with a {} ms timeout ended after {} ms with {} although its target is 20000 states and not every property has a discovery", c.threads, c.unexpired_ms, vb["elapsed_ms"], vb);
+            }
             with.sort();
             without.sort();
             let (mw, mo) = (with[1], without[1]);
-            ensure!(mw <= (10 * mo).max(900), format!("c12/timeout/unexpired-timeout-slows-the-check/{}", c.strat), "{} with {} thread(s) on a 5000-state model: median {} ms without a timeout, {} ms with an (unexpired) 600 s timeout (runs: {:?} vs {:?})", c.strat, c.threads, mo, mw, without, with);
+            ensure!(c.unexpired_ms < 600_000 || mw <= (10 * mo).max(900), format!("c12/timeout/unexpired-timeout-slows-the-check/{}", c.strat), "{} with {} thread(s) on a 5000-state model: median {} ms without a timeout, {} ms with an (unexpired) 600 s timeout (runs: {:?} vs {:?})", c.strat, c.threads, mo, mw, without, with);
             cov.label("unexpired_timeout");
             cov.label(&format!("unexpired/{}", c.strat));
             cov.nontrivial(c);
